@@ -17,8 +17,11 @@ void orc_reset(void) { ncs = ngp = noverlap = 0; }
 
 int orc_cs_begin(int who)
 {
-	if (ncs >= MAXCS)
-		usim_bug("oracle: too many critical sections");
+	if (ncs >= MAXCS) {
+		/* a run that loops (it will hit the liveness bound): stop recording, never a machinery error */
+		usim_probe("oracle.cs_table_saturated");
+		return -1;
+	}
 	cs[ncs].begin = usim_seq();
 	cs[ncs].end = 0;
 	cs[ncs].who = who;
@@ -27,13 +30,17 @@ int orc_cs_begin(int who)
 
 void orc_cs_end(int id)
 {
+	if (id < 0)
+		return;
 	cs[id].end = usim_seq();
 }
 
 int orc_gp_call(int who)
 {
-	if (ngp >= MAXGP)
-		usim_bug("oracle: too many grace periods");
+	if (ngp >= MAXGP) {
+		usim_probe("oracle.gp_table_saturated");
+		return -1;
+	}
 	gp[ngp].call = usim_seq();
 	gp[ngp].done = 0;
 	gp[ngp].who = who;
@@ -45,6 +52,8 @@ void orc_gp_done(int id, const char *what)
 	uint64_t now = usim_seq();
 	int i, ov = 0;
 
+	if (id < 0)
+		return;
 	gp[id].done = now;
 	for (i = 0; i < ncs; i++) {
 		if (cs[i].begin < gp[id].call) {
